@@ -829,6 +829,34 @@ func replayAll(ld *loaded, outDir string, vs []*sym.Violation) (confirmed, misma
 			}
 		}
 	}
+	// a counterexample that did not reproduce may have alternatives from other paths: try those
+	var alts []*sym.Violation
+	for _, v := range mismatched {
+		for _, a := range v.Alts {
+			a.PkgDir = v.PkgDir
+			alts = append(alts, a)
+		}
+	}
+	if len(alts) > 0 {
+		altConfirmed, _ := replayAll(ld, filepath.Join(outDir, "alts"), alts)
+		var still []*sym.Violation
+		for _, v := range mismatched {
+			var hit *sym.Violation
+			for _, a := range altConfirmed {
+				if a.Harness == v.Harness && a.Key == v.Key {
+					hit = a
+					break
+				}
+			}
+			if hit != nil {
+				hit.Count = v.Count
+				confirmed = append(confirmed, hit)
+			} else {
+				still = append(still, v)
+			}
+		}
+		mismatched = still
+	}
 	return
 }
 
